@@ -141,8 +141,8 @@ def resolveInRoot (w : World) (cfg : Cfg) (path : Bytes) : Except Nat Fd :=
 
 def parseDigits (b : Bytes) : Nat := b.foldl (fun acc c => acc * 10 + (c.toNat - 48)) 0
 
-/-- the access mode asks for writing -/
-def accWrite (flags : Nat) : Bool := flags &&& O_ACCMODE ≠ O_RDONLY
+/-- the open asks for write access: the access mode, or `O_TRUNC` (`build_open_flags` adds `MAY_WRITE` for it) -/
+def accWrite (flags : Nat) : Bool := flags &&& O_ACCMODE ≠ O_RDONLY || hasAll flags O_TRUNC
 
 /-- What `open(2)` says about the object the lookup ended at, by kind.  A symlink is the final object
 only of a no-follow lookup: it can be opened with `O_PATH` alone, `O_DIRECTORY` makes it `ENOTDIR`,
